@@ -201,13 +201,34 @@ def check(run: Run) -> None:
                     run.violation("R14.5", m, qual, n, "the projection is not computed with the caller's mode")
         if resvar is None:
             raise AnalysisError(f"{qual}: project() call not found")
-        # converters get <res>.filtered_doc
-        for n in walk_no_nested(fi.node):
-            if isinstance(n, ast.Call) and isinstance(n.func, ast.Name) and n.func.id in ("_ast_to_dict", "_ast_to_markdown"):
-                ok = len(n.args) == 1 and ast.unparse(n.args[0]) == f"{resvar}.filtered_doc"
-                run.instance("R14.5", m.loc(n), f"{qual}: `{norm(n)}` converts the projected document", ok=ok)
-                if not ok:
-                    run.violation("R14.5", m, qual, n, "a format converter is fed something other than the projection's filtered document: formats of one projection would contain different leaves")
+        # converters get <res>.filtered_doc - here, or in a helper whose every call site passes it
+        def is_projected(fn: FuncInfo, arg: ast.AST, depth: int = 0) -> bool:
+            if isinstance(arg, ast.Attribute) and arg.attr == "filtered_doc" and isinstance(arg.value, ast.Name):
+                return any(isinstance(a, ast.Assign) and any(is_name(t, arg.value.id) for t in a.targets) and isinstance(a.value, ast.Call) and ast.unparse(a.value.func) == "project" for a in walk_no_nested(fn.node))
+            if isinstance(arg, ast.Name) and depth < 3:
+                params = [a.arg for a in fn.node.args.args]  # type: ignore[attr-defined]
+                if arg.id in params:
+                    idx = params.index(arg.id)
+                    sites = [(c2, n2) for c2 in m.functions.values() for n2 in walk_no_nested(c2.node) if isinstance(n2, ast.Call) and isinstance(n2.func, ast.Name) and n2.func.id == fn.name and c2 is not fn]
+                    return bool(sites) and all(is_projected(c2, (n2.args[idx] if idx < len(n2.args) else next((k.value for k in n2.keywords if k.arg == arg.id), ast.Constant(None))), depth + 1) for c2, n2 in sites)
+                # local bound from <res>.filtered_doc
+                binds = [a.value for a in walk_no_nested(fn.node) if isinstance(a, ast.Assign) and any(is_name(t, arg.id) for t in a.targets)]
+                return bool(binds) and all(is_projected(fn, b, depth + 1) for b in binds)
+            return False
+
+        n_conv = 0
+        for f2 in m.functions.values():
+            if f2.name in ("_ast_to_dict", "_ast_to_markdown", "_block_to_markdown", "_convert_block", "_convert_value", "_format_markdown_value"):
+                continue
+            for n in walk_no_nested(f2.node):
+                if isinstance(n, ast.Call) and isinstance(n.func, ast.Name) and n.func.id in ("_ast_to_dict", "_ast_to_markdown"):
+                    n_conv += 1
+                    ok = len(n.args) == 1 and is_projected(f2, n.args[0])
+                    run.instance("R14.5", m.loc(n), f"{f2.qualname}: `{norm(n)}` converts the projected document", ok=ok)
+                    if not ok:
+                        run.violation("R14.5", m, f2.qualname, n, "a format converter is fed something other than the projection's filtered document: formats of one projection would contain different leaves")
+        if n_conv < 2:
+            raise AnalysisError(f"{m.relpath}: fewer than 2 converter call sites found")
         if modname == "mcp.eject":
             for n in walk_no_nested(fi.node):
                 if isinstance(n, ast.Return) and isinstance(n.value, ast.Dict):
